@@ -471,3 +471,54 @@ Example C13_ex_beyond_limits :
        /\ tag ng 40 = 2 /\ tag ng 41 = 2 /\ tag ng 42 = 2
        /\ ng = built 16 48 [OAdd 40; OAdd 41; OBind 40 41 (Alpha 1); OAdd 42; OBind 41 42 (Alpha 2)].
 Proof. exact slice_weak_example. Qed.
+
+(** ** slicing a slice changes nothing (SliceTwice.v): the slice is closed
+    under its own reachability, so [slice(v)] of it has the same present
+    vertices and the same edges, for every enumeration order of either call *)
+
+From Sodg Require Import SliceTwice.
+
+Theorem C13_slice_of_slice : forall n order order' g v,
+  Inv n g -> (forall l, Permutation (order l) l) -> (forall l, Permutation (order' l) l) ->
+  closed g v ->
+  (forall rs, NoDup rs -> (forall u, In u rs -> reach ptrue g v u) -> length rs <= 14) ->
+  (forall u a, reach ptrue g v u -> ~ In (a, u) (edg g u)) ->
+  exists ng ng',
+    op_slice n order g v = Ok ng /\ op_slice n order' ng v = Ok ng'
+    /\ (forall w, tag ng' w <> 0 <-> tag ng w <> 0)
+    /\ (forall w a t, In (a, t) (edg ng' w) <-> In (a, t) (edg ng w))
+    /\ (forall w, tag ng w <> 0 -> edg ng' w = edg ng w)
+    /\ (forall w, reach ptrue ng' v w <-> reach ptrue g v w)
+    /\ (forall w, prs ng' w = PEmpty).
+Proof. exact slice_twice. Qed.
+Check C13_slice_of_slice : forall n order order' g v,
+  Inv n g -> (forall l, Permutation (order l) l) -> (forall l, Permutation (order' l) l) ->
+  closed g v ->
+  (forall rs, NoDup rs -> (forall u, In u rs -> reach ptrue g v u) -> length rs <= 14) ->
+  (forall u a, reach ptrue g v u -> ~ In (a, u) (edg g u)) ->
+  exists ng ng',
+    op_slice n order g v = Ok ng /\ op_slice n order' ng v = Ok ng'
+    /\ (forall w, tag ng' w <> 0 <-> tag ng w <> 0)
+    /\ (forall w a t, In (a, t) (edg ng' w) <-> In (a, t) (edg ng w))
+    /\ (forall w, tag ng w <> 0 -> edg ng' w = edg ng w)
+    /\ (forall w, reach ptrue ng' v w <-> reach ptrue g v w)
+    /\ (forall w, prs ng' w = PEmpty).
+Print Assumptions C13_slice_of_slice.
+
+Theorem C13_reach_in_slice : forall g ng v,
+  (forall w a t, In (a, t) (edg ng w) <-> reach ptrue g v w /\ In (a, t) (edg g w)) ->
+  forall w, reach ptrue ng v w <-> reach ptrue g v w.
+Proof. exact reach_slice_iff. Qed.
+Check C13_reach_in_slice : forall g ng v,
+  (forall w a t, In (a, t) (edg ng w) <-> reach ptrue g v w /\ In (a, t) (edg g w)) ->
+  forall w, reach ptrue ng v w <-> reach ptrue g v w.
+Print Assumptions C13_reach_in_slice.
+
+(** non-vacuity: the cyclic example above, sliced twice with two different
+    enumeration orders, is the same graph as sliced once *)
+Example C13_example_slice_of_slice :
+  match op_slice 4 (@rev nat) ex_api 0 with
+  | Ok ng => op_slice 4 (fun l => l) ng 0 = Ok ng
+  | _ => False
+  end.
+Proof. vm_compute. reflexivity. Qed.
